@@ -161,3 +161,919 @@ Proof.
   unfold znth. destruct (nth_in_or_default (Z.to_nat a) sh 0) as [Hin|E]; [|rewrite E; lia].
   unfold shape_ok in Hok. rewrite Forall_forall in Hok. apply Hok. exact Hin.
 Qed.
+
+(* ------------------------------------------------------------------ the unravel/ravel kernels = Shape.unravel/ravel *)
+Definition strided_step (n : Z) (d : Z) (acc : idx * Z) : idx * Z :=
+  (((n / snd acc) mod d) :: fst acc, snd acc * d).
+
+Lemma unravel_strided_unfold sh n : unravel_strided sh n = fst (fold_right (strided_step n) ([], 1) sh).
+Proof. reflexivity. Qed.
+
+Lemma strided_snd sh n : snd (fold_right (strided_step n) ([], 1) sh) = size sh.
+Proof. induction sh as [|d sh IH]; simpl; [reflexivity|]. rewrite IH. lia. Qed.
+
+Lemma unravel_strided_cons d sh n :
+  unravel_strided (d :: sh) n = ((n / size sh) mod d) :: unravel_strided sh n.
+Proof. rewrite !unravel_strided_unfold. simpl. rewrite strided_snd. reflexivity. Qed.
+
+Lemma unravel_strided_nil n : unravel_strided [] n = [].
+Proof. reflexivity. Qed.
+
+Lemma shape_pos_of_size sh : shape_ok sh -> 0 < size sh -> Forall (fun d => 0 < d) sh.
+Proof.
+  induction 1 as [|d sh Hd Hok IH]; simpl; intros Hs; [constructor|].
+  pose proof (size_nonneg sh Hok). constructor; [nia|]. apply IH. nia.
+Qed.
+
+(* periodicity: only n mod size sh matters *)
+Lemma unravel_strided_mod sh : forall n,
+  Forall (fun d => 0 < d) sh -> unravel_strided sh (n mod size sh) = unravel_strided sh n.
+Proof.
+  induction sh as [|d sh IH]; intros n Hpos; [reflexivity|].
+  inversion Hpos as [|? ? Hd Hpos']; subst.
+  assert (HS : 0 < size sh).
+  { clear -Hpos'. induction Hpos'; simpl; [lia|nia]. }
+  rewrite !unravel_strided_cons. simpl size.
+  replace (d * size sh) with (size sh * d) by lia.
+  rewrite (Z.rem_mul_r n (size sh) d) by lia.
+  set (S := size sh) in *. set (k := (n / S) mod d).
+  f_equal.
+  - replace (n mod S + S * k) with (n mod S + k * S) by lia.
+    rewrite Z.div_add by lia. rewrite (Z.div_small (n mod S) S) by (apply Z.mod_pos_bound; lia).
+    simpl. unfold k. apply Z.mod_mod. lia.
+  - rewrite <- (IH (n mod S + S * k)) by assumption. rewrite <- (IH n) by assumption. f_equal.
+    fold S. replace (n mod S + S * k) with (n mod S + k * S) by lia.
+    rewrite Z.mod_add by lia. apply Z.mod_mod. lia.
+Qed.
+
+Lemma unravel_strided_spec sh : forall n,
+  shape_ok sh -> 0 <= n < size sh -> unravel_strided sh n = unravel sh n.
+Proof.
+  induction sh as [|d sh IH]; intros n Hok Hn; [reflexivity|].
+  inversion Hok as [|? ? Hd Hok']; subst. simpl in Hn.
+  pose proof (size_nonneg sh Hok') as HS0.
+  assert (HS : 0 < size sh) by nia. assert (Hd' : 0 < d) by nia.
+  rewrite unravel_strided_cons. simpl unravel. f_equal.
+  - apply Z.mod_small. split; [apply Z.div_pos; lia|]. apply Z.div_lt_upper_bound; lia.
+  - rewrite <- unravel_strided_mod by (apply shape_pos_of_size; assumption).
+    apply IH; [assumption|]. apply Z.mod_pos_bound. lia.
+Qed.
+
+Lemma unravel_zero sh : unravel sh 0 = repeat 0 (length sh).
+Proof.
+  induction sh as [|d sh IH]; [reflexivity|]. simpl. rewrite Zdiv_0_l, Zmod_0_l, IH. reflexivity.
+Qed.
+
+Lemma unravel_k_go_spec t : forall d n,
+  shape_ok t -> 0 <= n < d * size t -> unravel_k_go t n = unravel (d :: t) n.
+Proof.
+  induction t as [|x t IH]; intros d n Hok Hn.
+  - simpl. rewrite Z.div_1_r. reflexivity.
+  - inversion Hok as [|? ? Hx Hok']; subst.
+    change (unravel_k_go (x :: t) n) with
+      (if 0 <? n then let cur := size (x :: t) in let q := n / cur in q :: unravel_k_go t (n - q * cur)
+       else repeat 0 (length (x :: t)) ++ [n]).
+    change (unravel (d :: x :: t) n) with (n / size (x :: t) :: unravel (x :: t) (n mod size (x :: t))).
+    destruct (Z.ltb_spec 0 n).
+    + cbv zeta. f_equal.
+      pose proof (size_nonneg (x :: t) Hok) as HS0.
+      assert (HS : 0 < size (x :: t)).
+      { destruct (Z.eq_dec (size (x :: t)) 0) as [E|E]; [rewrite E in Hn; lia|lia]. }
+      replace (n - n / size (x :: t) * size (x :: t)) with (n mod size (x :: t))
+        by (rewrite Z.mod_eq by lia; lia).
+      apply IH; [assumption|]. simpl size. simpl size in HS. apply Z.mod_pos_bound. lia.
+    + assert (n = 0) by lia. subst n. rewrite Zdiv_0_l, Zmod_0_l.
+      rewrite unravel_zero. simpl length.
+      change (repeat 0 (S (length t))) with (0 :: repeat 0 (length t)). simpl. f_equal.
+      rewrite <- repeat_cons. reflexivity.
+Qed.
+
+Lemma unravel_k_spec sh n :
+  sh <> [] -> shape_ok sh -> 0 <= n < size sh -> unravel_k n sh = unravel sh n.
+Proof.
+  destruct sh as [|d t]; [congruence|]. intros _ Hok Hn. inversion Hok; subst.
+  apply unravel_k_go_spec; assumption.
+Qed.
+
+Lemma ravel_k_go_spec : forall arr sh total,
+  arr <> [] -> length arr = length sh -> ravel_k_go arr (tl sh) total = total + ravel sh arr.
+Proof.
+  induction arr as [|a arr IH]; intros sh total Hne Hl; [congruence|].
+  destruct sh as [|d t]; [discriminate|]. destruct arr as [|a2 arr'].
+  - destruct t; [|discriminate]. simpl. lia.
+  - destruct t as [|d2 t']; [discriminate|].
+    change (ravel_k_go (a :: a2 :: arr') (tl (d :: d2 :: t')) total)
+      with (ravel_k_go (a2 :: arr') (tl (d2 :: t')) (total + a * size (d2 :: t'))).
+    rewrite IH; [|discriminate|simpl in *; lia].
+    change (ravel (d :: d2 :: t') (a :: a2 :: arr')) with (a * size (d2 :: t') + ravel (d2 :: t') (a2 :: arr')).
+    lia.
+Qed.
+
+Lemma ravel_k_spec arr sh : arr <> [] -> length arr = length sh -> ravel_k arr sh = ravel sh arr.
+Proof. intros. unfold ravel_k. rewrite ravel_k_go_spec by assumption. lia. Qed.
+
+(* the custom kernels are Shape.unravel / Shape.ravel on their domain (DESIGN: unravel_kernel_spec) *)
+Theorem unravel_kernel_spec_proof sh n ix :
+  sh <> [] -> shape_ok sh ->
+  (0 <= n < size sh -> unravel_k n sh = unravel sh n /\ unravel_strided sh n = unravel sh n)
+  /\ (in_range sh ix -> ravel_k ix sh = ravel sh ix).
+Proof.
+  intros Hne Hok. split.
+  - intros Hn. split; [apply unravel_k_spec; assumption|apply unravel_strided_spec; assumption].
+  - intros Hix. apply ravel_k_spec; [|apply in_range_length; assumption].
+    destruct sh; [congruence|]. destruct ix; simpl in Hix; [tauto|discriminate].
+Qed.
+
+(* the 2-d compressed view *)
+Lemma unravel_strided_2 rs cs l :
+  unravel_strided [rs; cs] l = [(l / cs) mod rs; l mod cs].
+Proof.
+  rewrite !unravel_strided_cons, unravel_strided_nil. simpl size.
+  rewrite Z.mul_1_r, Z.div_1_r. reflexivity.
+Qed.
+
+Lemma ravel_2 rs cs r c : ravel [rs; cs] [r; c] = r * cs + c.
+Proof. simpl. lia. Qed.
+
+Lemma div_mod_2d rs cs l :
+  0 <= l < rs * cs -> 0 <= rs -> 0 <= cs ->
+  0 < cs /\ (l / cs) mod rs = l / cs /\ 0 <= l / cs < rs /\ 0 <= l mod cs < cs /\ l / cs * cs + l mod cs = l.
+Proof.
+  intros Hl Hr Hc. assert (0 < cs) by nia. assert (0 < rs) by nia.
+  assert (0 <= l / cs < rs).
+  { split; [apply Z.div_pos; lia|]. apply Z.div_lt_upper_bound; lia. }
+  repeat split; try lia.
+  - apply Z.mod_small. lia.
+  - apply Z.mod_pos_bound; lia.
+  - apply Z.mod_pos_bound; lia.
+  - pose proof (Z.div_mod l cs). lia.
+Qed.
+
+Lemma znth_0 {A} (x : A) l d : znth (x :: l) 0 d = x.
+Proof. reflexivity. Qed.
+Lemma znth_1 {A} (x y : A) l d : znth (x :: y :: l) 1 d = y.
+Proof. reflexivity. Qed.
+
+Lemma NoDup_map_in {A B} (f : A -> B) l :
+  (forall x y, In x l -> In y l -> f x = f y -> x = y) -> NoDup l -> NoDup (map f l).
+Proof.
+  intros Hinj Hnd. induction Hnd as [|a l Ha Hnd IH]; simpl; constructor.
+  - intros Hin. apply in_map_iff in Hin. destruct Hin as [y [Hy Hin]].
+    assert (y = a) by (apply Hinj; simpl; auto). subst. contradiction.
+  - apply IH. intros; apply Hinj; simpl; auto.
+Qed.
+
+(* ------------------------------------------------------------------ keys under a choice of compressed axes *)
+Definition ckey (sh : shape) (ca : list Z) (ix : idx) : Z :=
+  ravel (reordered_shape sh ca) (gather ix (axis_order (Z.of_nat (length sh)) ca)).
+
+Definition unkey (sh : shape) (ca : list Z) (l : Z) : idx :=
+  unpermute (axis_order (Z.of_nat (length sh)) ca) (unravel (reordered_shape sh ca) l).
+
+Lemma reordered_shape_gather sh ca :
+  reordered_shape sh ca = gather sh (axis_order (Z.of_nat (length sh)) ca).
+Proof. reflexivity. Qed.
+
+Section Keys.
+  Variable sh : shape.
+  Variable ca : list Z.
+  Hypothesis Hok : shape_ok sh.
+  Hypothesis Hca : caxes_okb (Z.of_nat (length sh)) ca = true.
+
+  Let ord := axis_order (Z.of_nat (length sh)) ca.
+  Let rsh := reordered_shape sh ca.
+
+  Lemma ord_perm : perm_of (length sh) ord.
+  Proof. apply axis_order_perm. exact Hca. Qed.
+
+  Lemma rsh_ok : shape_ok rsh.
+  Proof. unfold rsh. rewrite reordered_shape_gather. apply shape_ok_gather. exact Hok. Qed.
+
+  Lemma rsh_length : length rsh = length sh.
+  Proof. unfold rsh. rewrite reordered_shape_gather, gather_length. apply perm_of_length, ord_perm. Qed.
+
+  Lemma gather_ord_in_range ix : in_range sh ix -> in_range rsh (gather ix ord).
+  Proof.
+    intros H. unfold rsh. rewrite reordered_shape_gather. apply gather_in_range; [assumption|].
+    intros a Ha. eapply perm_of_range; [apply ord_perm|exact Ha].
+  Qed.
+
+  Lemma size_rsh : size rsh = row_size sh ca * col_size sh ca.
+  Proof.
+    unfold row_size, col_size. fold rsh. unfold rsh, reordered_shape, axis_order.
+    rewrite map_app, size_app. f_equal.
+    rewrite skipn_app, skipn_all2 by (rewrite map_length; lia).
+    rewrite map_length, Nat.sub_diag. reflexivity.
+  Qed.
+
+  Lemma row_size_nonneg : 0 <= row_size sh ca.
+  Proof.
+    unfold row_size. apply size_nonneg. fold (gather sh ca). apply shape_ok_gather. exact Hok.
+  Qed.
+
+  Lemma col_size_nonneg : 0 <= col_size sh ca.
+  Proof.
+    unfold col_size. apply size_nonneg. fold rsh.
+    pose proof rsh_ok as H. unfold shape_ok in *. rewrite <- (firstn_skipn (length ca) rsh) in H.
+    apply Forall_app in H. tauto.
+  Qed.
+
+  Lemma ckey_bounds ix : in_range sh ix -> 0 <= ckey sh ca ix < row_size sh ca * col_size sh ca.
+  Proof.
+    intros H. rewrite <- size_rsh. apply ravel_bounds. apply gather_ord_in_range. exact H.
+  Qed.
+
+  Lemma unkey_ckey ix : in_range sh ix -> unkey sh ca (ckey sh ca ix) = ix.
+  Proof.
+    intros H. unfold unkey, ckey. fold ord rsh.
+    rewrite unravel_ravel by (apply gather_ord_in_range; exact H).
+    apply (unpermute_gather (length sh)); [apply ord_perm|apply in_range_length; exact H].
+  Qed.
+
+  Lemma ckey_inj ix iy : in_range sh ix -> in_range sh iy -> ckey sh ca ix = ckey sh ca iy -> ix = iy.
+  Proof. intros Hx Hy E. rewrite <- (unkey_ckey ix Hx), <- (unkey_ckey iy Hy), E. reflexivity. Qed.
+End Keys.
+
+Lemma SS_map_inv {A B} (R : B -> B -> Prop) (f : A -> B) l :
+  StronglySorted R (map f l) -> StronglySorted (fun a b => R (f a) (f b)) l.
+Proof.
+  induction l as [|x l IH]; simpl; intros H; constructor; inversion H; subst; auto.
+  rewrite Forall_map in *. assumption.
+Qed.
+
+Lemma combine_map_map {A B C} (f : A -> B) (g : A -> C) l :
+  combine (map f l) (map g l) = map (fun x => (f x, g x)) l.
+Proof. induction l; simpl; congruence. Qed.
+
+(* ------------------------------------------------------------------ den is invariant under reordering of the entries *)
+Section Lookup.
+  Variable V : Type.
+
+  Lemma lookup_perm (es es' : list (idx * V)) ix :
+    NoDup (map fst es) -> Permutation es es' -> lookup es ix = lookup es' ix.
+  Proof.
+    intros Hnd Hp.
+    assert (Hnd' : NoDup (map fst es')) by (eapply Permutation_NoDup; [apply Permutation_map; exact Hp|exact Hnd]).
+    destruct (lookup es ix) as [v|] eqn:E.
+    - apply (lookup_In V _ _ _ Hnd) in E. symmetry. apply (lookup_In V _ _ _ Hnd').
+      eapply Permutation_in; eauto.
+    - destruct (lookup es' ix) as [w|] eqn:E'; [|reflexivity].
+      apply (lookup_In V _ _ _ Hnd') in E'. apply Permutation_sym in Hp.
+      apply (Permutation_in _ Hp) in E'. apply (lookup_In V _ _ _ Hnd) in E'. congruence.
+  Qed.
+End Lookup.
+
+Section NdHelpers.
+  Variable V : Type.
+
+  Lemma gcxs_wfb_nd_intro sh ca (data : list V) indices indptr fill :
+    (2 <= length sh)%nat ->
+    forallb (fun d => 0 <=? d) sh = true ->
+    (length indices =? length data)%nat = true ->
+    negb (match ca with [] => true | _ => false end) = true ->
+    forallb (fun a => (0 <=? a) && (a <? Z.of_nat (length sh))) ca = true ->
+    (Z.of_nat (length ca) <? Z.of_nat (length sh)) = true ->
+    NoDupb ca = true ->
+    (Z.of_nat (length indptr) =? row_size sh ca + 1) = true ->
+    (znth indptr 0 (-1) =? 0) = true ->
+    (znth indptr (row_size sh ca) (-1) =? Z.of_nat (length data)) = true ->
+    nondecreasing indptr = true ->
+    forallb (fun i => (0 <=? i) && (i <? col_size sh ca)) indices = true ->
+    forallb strictly_increasing (rows_of indices indptr) = true ->
+    gcxs_wfb (mkGCXS sh ca data indices indptr fill) = true.
+  Proof.
+    intros Hnd H0 H1 H2 H3 H4 H5 H6 H7 H8 H9 H10 H11.
+    unfold gcxs_wfb. cbn [g_shape g_caxes g_data g_indices g_indptr].
+    destruct sh as [|d1 [|d2 t]]; [simpl in Hnd; lia|simpl in Hnd; lia|].
+    rewrite H0, H1, H2, H3, H4, H5, H6, H7, H8, H9, H10, H11. reflexivity.
+  Qed.
+
+  Lemma gcxs_coords_nd sh ca (data : list V) indices indptr fill :
+    (2 <= length sh)%nat ->
+    gcxs_coords (mkGCXS sh ca data indices indptr fill)
+    = map (fun rc => unpermute (axis_order (Z.of_nat (length sh)) ca)
+                       (unravel (reordered_shape sh ca) (fst rc * col_size sh ca + snd rc)))
+          (combine (row_numbers indptr) indices).
+  Proof.
+    intros Hnd. unfold gcxs_coords. cbn [g_shape g_caxes g_data g_indices g_indptr].
+    destruct sh as [|d1 [|d2 t]]; [simpl in Hnd; lia|simpl in Hnd; lia|]. reflexivity.
+  Qed.
+End NdHelpers.
+
+Section GC.
+  Variable V : Type.
+  Variable veqb : V -> V -> bool.
+  Variable add : V -> V -> V.
+
+  Notation entry := (idx * V)%type.
+
+  (* the sorted (key, value) list that _from_coo builds *)
+  Definition gsorted (c : coo V) (ca : list Z) : list (Z * V) :=
+    stable_sort (combine (map (ckey (c_shape c) ca) (c_coords c)) (c_data c)).
+
+  Section Fixed.
+    Variable c : coo V.
+    Variable ca : list Z.
+    Hypothesis Hc : canonical V c.
+    Hypothesis Hok : shape_ok (c_shape c).
+    Hypothesis Hca : caxes_okb (Z.of_nat (length (c_shape c))) ca = true.
+
+    Let sh := c_shape c.
+    Let rs := row_size sh ca.
+    Let cs := col_size sh ca.
+    Let s := gsorted c ca.
+
+    Lemma gs_perm : Permutation (combine (map (ckey sh ca) (c_coords c)) (c_data c)) s.
+    Proof. apply stable_sort_perm. Qed.
+
+    Lemma gs_keys_perm : Permutation (map (ckey sh ca) (c_coords c)) (map fst s).
+    Proof.
+      destruct Hc as [_ [_ Hl]].
+      rewrite <- (map_fst_combine (map (ckey sh ca) (c_coords c)) (c_data c)) at 1 by (rewrite map_length; lia).
+      apply Permutation_map, gs_perm.
+    Qed.
+
+    Lemma lin_NoDup : NoDup (map (ckey sh ca) (c_coords c)).
+    Proof.
+      destruct Hc as [Hr [Hs _]]. rewrite Forall_forall in Hr.
+      apply NoDup_map_in; [|apply SS_lex_NoDup; exact Hs].
+      intros x y Hx Hy. apply ckey_inj; auto.
+    Qed.
+
+    Lemma gs_keys_lt : StronglySorted Z.lt (map fst s).
+    Proof.
+      apply SS_le_NoDup_lt.
+      - apply SS_map_kle. apply stable_sort_sorted.
+      - eapply Permutation_NoDup; [apply gs_keys_perm|apply lin_NoDup].
+    Qed.
+
+    Lemma gs_bounds p : In p s -> 0 <= fst p < rs * cs.
+    Proof.
+      intros Hp. assert (Hin : In (fst p) (map fst s)) by (apply in_map; exact Hp).
+      apply (Permutation_in _ (Permutation_sym gs_keys_perm)) in Hin.
+      apply in_map_iff in Hin. destruct Hin as [ix [<- Hix]].
+      destruct Hc as [Hr _]. rewrite Forall_forall in Hr. apply ckey_bounds; auto.
+    Qed.
+
+    Definition rowf (p : Z * V) : Z := (fst p / cs) mod rs.
+    Definition colf (p : Z * V) : Z := fst p mod cs.
+
+    Lemma rs_nonneg : 0 <= rs. Proof. apply row_size_nonneg. exact Hok. Qed.
+    Lemma cs_nonneg : 0 <= cs. Proof. apply col_size_nonneg; assumption. Qed.
+
+    Lemma rowf_colf p : In p s ->
+      0 < cs /\ rowf p = fst p / cs /\ 0 <= rowf p < rs /\ 0 <= colf p < cs /\ rowf p * cs + colf p = fst p.
+    Proof.
+      intros Hp. pose proof (gs_bounds p Hp) as Hb.
+      destruct (div_mod_2d rs cs (fst p) Hb rs_nonneg cs_nonneg) as [H1 [H2 [H3 [H4 H5]]]].
+      unfold rowf, colf. rewrite H2. auto.
+    Qed.
+
+    Lemma gs_pairs_lt : StronglySorted (fun a b : Z * V => fst a < fst b) s.
+    Proof. apply SS_map_inv. apply gs_keys_lt. Qed.
+
+    Lemma rows_sorted : StronglySorted Z.le (map rowf s).
+    Proof.
+      eapply SS_map_mono; [|apply gs_pairs_lt]. intros a b Ha Hb Hab. simpl in Hab.
+      destruct (rowf_colf a Ha) as [Hcs [Ea _]]. destruct (rowf_colf b Hb) as [_ [Eb _]].
+      rewrite Ea, Eb. apply Z.div_le_mono; lia.
+    Qed.
+
+    Lemma rows_in_range : Forall (fun r => 0 <= r < rs) (map rowf s).
+    Proof. rewrite Forall_map. apply Forall_forall. intros p Hp. apply rowf_colf. exact Hp. Qed.
+
+    Lemma rows_cols_lex : StronglySorted lexlt2 (combine (map rowf s) (map colf s)).
+    Proof.
+      rewrite combine_map_map. eapply SS_map_mono; [|apply gs_pairs_lt].
+      intros a b Ha Hb Hab. simpl in Hab. unfold lexlt2. simpl.
+      destruct (rowf_colf a Ha) as [Hcs [_ [_ [Hca' Ea]]]]. destruct (rowf_colf b Hb) as [_ [_ [_ [Hcb' Eb]]]].
+      nia.
+    Qed.
+
+    (* uncompress after compress: the row numbers come back *)
+    Lemma rows_roundtrip : row_numbers (indptr_of (map rowf s) rs) = map rowf s.
+    Proof. apply row_numbers_indptr_of; [apply rows_sorted|apply rows_in_range]. Qed.
+
+    (* ---- ndim >= 2 *)
+    Hypothesis Hnd : (2 <= length (c_shape c))%nat.
+
+    Lemma from_coo_nf :
+      gcxs_from_coo c ca
+      = mkGCXS sh ca (map snd s) (map colf s) (indptr_of (map rowf s) rs) (c_fill c).
+    Proof.
+      unfold gcxs_from_coo. unfold s, gsorted, rowf, colf, rs, cs, sh.
+      destruct (c_shape c) as [|d1 [|d2 t]] eqn:E; [simpl in Hnd; lia|simpl in Hnd; lia|].
+      cbv zeta. rewrite !map_map. f_equal.
+      - apply map_ext. intros p. rewrite unravel_strided_2. apply znth_1.
+      - f_equal. apply map_ext. intros p. rewrite unravel_strided_2. apply znth_0.
+    Qed.
+
+    Lemma from_coo_nd_wf : gcxs_wfb (gcxs_from_coo c ca) = true.
+    Proof.
+      rewrite from_coo_nf.
+      pose proof Hca as Hca'. unfold caxes_okb in Hca'. rewrite !andb_true_iff in Hca'.
+      destruct Hca' as [[[C1 C2] C3] C4].
+      apply gcxs_wfb_nd_intro; auto.
+      - apply forallb_forall. intros d Hd. unfold shape_ok in Hok. rewrite Forall_forall in Hok.
+        apply Z.leb_le. apply Hok. exact Hd.
+      - rewrite !map_length. apply Nat.eqb_refl.
+      - apply Z.eqb_eq. unfold indptr_of, bincount. simpl length.
+        rewrite cumsum_length, map_length, zrange_length. fold rs. pose proof rs_nonneg. lia.
+      - apply Z.eqb_eq. fold rs. unfold znth, indptr_of.
+        replace (Z.to_nat rs) with (length (bincount (map rowf s) rs))
+          by (unfold bincount; rewrite map_length, zrange_length; reflexivity).
+        rewrite cumsum_last. rewrite zsum_bincount by (try apply rows_sorted; apply rows_in_range).
+        rewrite !map_length. lia.
+      - apply nondecreasing_SS. unfold indptr_of. apply cumsum_nondecreasing.
+        unfold bincount. rewrite Forall_map. apply Forall_forall. intros; apply count_z_nonneg.
+      - apply forallb_forall. intros i Hi. apply in_map_iff in Hi. destruct Hi as [p [<- Hp]].
+        destruct (rowf_colf p Hp) as [_ [_ [_ [Hcol _]]]]. fold cs.
+        apply andb_true_iff. split; [apply Z.leb_le|apply Z.ltb_lt]; lia.
+      - fold rs. unfold indptr_of, bincount. rewrite zrange_zr.
+        apply (rows_of_sorted (Z.to_nat rs) 0%nat [] (map rowf s) (map colf s)).
+        + rewrite !map_length. reflexivity.
+        + apply rows_sorted.
+        + eapply Forall_impl; [|apply rows_in_range]. intros r Hr. simpl in *. pose proof rs_nonneg. lia.
+        + apply rows_cols_lex.
+    Qed.
+
+    (* the entries of the GCXS, read through gcxs_coords, are the entries of c in key order *)
+    Lemma from_coo_nd_coords :
+      gcxs_coords (gcxs_from_coo c ca) = map (fun p => unkey sh ca (fst p)) s.
+    Proof.
+      rewrite from_coo_nf. rewrite gcxs_coords_nd by exact Hnd. fold rs cs.
+      rewrite rows_roundtrip. rewrite combine_map_map, map_map.
+      apply map_ext_in. intros p Hp. simpl fst. simpl snd. unfold unkey.
+      destruct (rowf_colf p Hp) as [_ [_ [_ [_ Hrc]]]]. rewrite Hrc. reflexivity.
+    Qed.
+
+    Lemma from_coo_nd_entries_perm :
+      Permutation (entries (gcxs_as_coo (gcxs_from_coo c ca))) (entries c).
+    Proof.
+      unfold entries at 1, gcxs_as_coo. cbn [c_coords c_data]. rewrite from_coo_nd_coords.
+      rewrite from_coo_nf. cbn [g_data]. rewrite combine_map_map.
+      set (g := fun p : Z * V => (unkey sh ca (fst p), snd p)).
+      set (L := combine (map (ckey sh ca) (c_coords c)) (c_data c)).
+      assert (Hmap : map g L = entries c).
+      { unfold L, entries. rewrite combine_map_l, map_map.
+        rewrite <- (map_id (combine (c_coords c) (c_data c))) at 2.
+        apply map_ext_in. intros [ix v] Hin. unfold g. simpl.
+        destruct Hc as [Hr _]. rewrite Forall_forall in Hr.
+        rewrite unkey_ckey; auto. apply Hr. eapply in_combine_l; exact Hin. }
+      rewrite <- Hmap. apply Permutation_map. apply Permutation_sym. apply gs_perm.
+    Qed.
+
+    Lemma from_coo_nd_den ix : gden (gcxs_from_coo c ca) ix = den c ix.
+    Proof.
+      unfold gden, den. cbn [c_fill gcxs_as_coo].
+      rewrite (lookup_perm V _ (entries c)).
+      - rewrite from_coo_nf. reflexivity.
+      - eapply Permutation_NoDup; [apply Permutation_map, Permutation_sym, from_coo_nd_entries_perm|].
+        destruct Hc as [_ [Hs Hl]]. unfold entries. rewrite map_fst_combine by lia. apply SS_lex_NoDup. exact Hs.
+      - apply from_coo_nd_entries_perm.
+    Qed.
+  End Fixed.
+
+  (* ---- ndim 0 and 1: the GCXS holds the COO's arrays as they are *)
+  Lemma coords_0d (c : coo V) :
+    canonical V c -> c_shape c = [] -> c_coords c = map (fun _ => []) (c_data c) /\ (length (c_data c) <= 1)%nat.
+  Proof.
+    intros [Hr [Hs Hl]] E. rewrite E in Hr. split.
+    - revert Hl. generalize (c_data c). induction (c_coords c) as [|ix l IH]; intros [|v vs] Hl; simpl in *; try discriminate; [reflexivity|].
+      inversion Hr as [|? ? Hix Hr']; subst. destruct ix; [|simpl in Hix; tauto].
+      f_equal. apply IH; [assumption|inversion Hs; assumption|lia].
+    - rewrite Hl. destruct (c_coords c) as [|a [|b l]]; simpl; try lia.
+      inversion Hr as [|? ? Ha Hr']; subst. inversion Hr' as [|? ? Hb _]; subst.
+      destruct a; [|simpl in Ha; tauto]. destruct b; [|simpl in Hb; tauto].
+      inversion Hs as [|? ? _ Hall]; subst. inversion Hall as [|? ? Hlt _]; subst. simpl in Hlt. tauto.
+  Qed.
+
+  Lemma coords_1d (c : coo V) d :
+    canonical V c -> c_shape c = [d] ->
+    map (fun i => [i]) (map (fun ix => znth ix 0 0) (c_coords c)) = c_coords c
+    /\ Forall (fun i => 0 <= i < d) (map (fun ix => znth ix 0 0) (c_coords c))
+    /\ StronglySorted Z.lt (map (fun ix => znth ix 0 0) (c_coords c)).
+  Proof.
+    intros [Hr [Hs _]] E. rewrite E in Hr.
+    assert (Hform : forall ix, In ix (c_coords c) -> exists i, ix = [i] /\ 0 <= i < d).
+    { intros ix Hix. rewrite Forall_forall in Hr. specialize (Hr _ Hix).
+      destruct ix as [|i [|j t]]; simpl in Hr; try tauto. exists i. split; [reflexivity|tauto]. }
+    clear Hr. induction (c_coords c) as [|ix l IH]; simpl; [repeat split; constructor|].
+    destruct (Hform ix (or_introl eq_refl)) as [i [-> Hi]].
+    inversion Hs as [|? ? Hs' Hall]; subst.
+    destruct IH as [I1 [I2 I3]]; [assumption|intros; apply Hform; right; assumption|].
+    rewrite znth_0. repeat split.
+    - f_equal. exact I1.
+    - constructor; assumption.
+    - constructor; [assumption|]. rewrite Forall_map. apply Forall_forall. intros iy Hy.
+      destruct (Hform iy (or_intror Hy)) as [j [-> Hj]]. rewrite znth_0.
+      rewrite Forall_forall in Hall. specialize (Hall _ Hy). simpl in Hall. lia.
+  Qed.
+
+  Lemma as_coo_from_coo_small (c : coo V) ca :
+    canonical V c -> (length (c_shape c) < 2)%nat -> gcxs_as_coo (gcxs_from_coo c ca) = c.
+  Proof.
+    intros Hc Hlen. unfold gcxs_as_coo, gcxs_from_coo, gcxs_coords.
+    destruct (c_shape c) as [|d [|d2 t]] eqn:E; [| |simpl in Hlen; lia]; cbn [g_shape g_data g_indices g_fill].
+    - destruct (coords_0d c Hc E) as [H1 _]. rewrite <- H1. destruct c; simpl in *; congruence.
+    - destruct (coords_1d c d Hc E) as [H1 _]. rewrite H1. destruct c; simpl in *; congruence.
+  Qed.
+
+  Definition axes_ok (sh : shape) (ca : list Z) : Prop :=
+    (length sh < 2)%nat \/ caxes_okb (Z.of_nat (length sh)) ca = true.
+
+  Theorem gcxs_from_coo_wf_proof (c : coo V) ca :
+    canonical V c -> shape_ok (c_shape c) -> axes_ok (c_shape c) ca ->
+    gcxs_wfb (gcxs_from_coo c ca) = true.
+  Proof.
+    intros Hc Hok Hax.
+    destruct (Nat.lt_ge_cases (length (c_shape c)) 2) as [Hlt|Hge].
+    - unfold gcxs_from_coo, gcxs_wfb.
+      destruct (c_shape c) as [|d [|d2 t]] eqn:E; [| |simpl in Hlt; lia]; cbn [g_shape g_caxes g_data g_indices g_indptr].
+      + destruct (coords_0d c Hc E) as [_ H2]. simpl. apply Nat.leb_le in H2. rewrite H2. reflexivity.
+      + destruct (coords_1d c d Hc E) as [_ [H2 H3]].
+        inversion Hok as [|? ? Hd _]; subst.
+        simpl forallb at 1. replace (0 <=? d) with true by (symmetry; apply Z.leb_le; lia). cbn [andb].
+        repeat (apply andb_true_iff; split).
+        * destruct Hc as [_ [_ Hl]]. rewrite map_length, Hl. apply Nat.eqb_refl.
+        * reflexivity.
+        * apply forallb_forall. intros i Hi. rewrite Forall_forall in H2. specialize (H2 _ Hi).
+          apply andb_true_iff. split; [apply Z.leb_le|apply Z.ltb_lt]; lia.
+        * apply strictly_increasing_SS. exact H3.
+    - destruct Hax as [Hax|Hax]; [lia|]. apply from_coo_nd_wf; assumption.
+  Qed.
+
+  Theorem gcxs_from_coo_den_proof (c : coo V) ca ix :
+    canonical V c -> shape_ok (c_shape c) -> axes_ok (c_shape c) ca ->
+    gden (gcxs_from_coo c ca) ix = den c ix.
+  Proof.
+    intros Hc Hok Hax.
+    destruct (Nat.lt_ge_cases (length (c_shape c)) 2) as [Hlt|Hge].
+    - unfold gden. rewrite as_coo_from_coo_small by assumption. reflexivity.
+    - destruct Hax as [Hax|Hax]; [lia|]. apply from_coo_nd_den; assumption.
+  Qed.
+
+  (* ================================================================ GCXS.tocoo *)
+  Lemma gcxs_tocoo_nd sh ca (data : list V) indices indptr fill :
+    (2 <= length sh)%nat ->
+    gcxs_tocoo veqb add (mkGCXS sh ca data indices indptr fill)
+    = coo_transpose veqb add
+        (coo_reshape veqb add
+           (coo_make veqb add false true false [row_size sh ca; col_size sh ca]
+              (map (fun rc => [fst rc; snd rc]) (combine (row_numbers indptr) indices)) data fill)
+           (reordered_shape sh ca))
+        (inv_perm (axis_order (Z.of_nat (length sh)) ca)).
+  Proof.
+    intros Hnd. unfold gcxs_tocoo. cbn [g_shape g_caxes g_data g_indices g_indptr g_fill].
+    destruct sh as [|d1 [|d2 t]]; [simpl in Hnd; lia|simpl in Hnd; lia|]. reflexivity.
+  Qed.
+
+  Lemma coo_make_plain sh coords (data : list V) fill :
+    length coords = length data ->
+    coo_make veqb add true false false sh coords data fill = mkCOO sh coords data fill.
+  Proof.
+    intros Hl. unfold coo_make, coo_of_entries. rewrite map_fst_combine, map_snd_combine by assumption. reflexivity.
+  Qed.
+
+  Lemma unpermute_as_gather : forall ord t a,
+    length t = length ord -> In a ord ->
+    znth t (index_of a ord) 0
+    = match find (fun p => fst p =? a) (combine ord t) with Some (_, v) => v | None => 0 end.
+  Proof.
+    induction ord as [|x r IH]; intros [|y t] a Hl Hin; simpl in *; try tauto; try discriminate.
+    destruct (Z.eqb_spec x a) as [->|Hne]; [reflexivity|].
+    destruct Hin as [?|Hin]; [congruence|].
+    rewrite Z.add_comm, znth_cons_S by apply index_of_nonneg. apply IH; [lia|assumption].
+  Qed.
+
+  Lemma gather_inv_unpermute n ord t :
+    perm_of n ord -> length t = n -> gather t (inv_perm ord) = unpermute ord t.
+  Proof.
+    intros Hp Hl. unfold inv_perm, unpermute, gather. rewrite map_map.
+    apply map_ext_in. intros a Ha. apply unpermute_as_gather.
+    - rewrite (perm_of_length n ord Hp). exact Hl.
+    - rewrite (perm_of_length n ord Hp) in Ha. eapply Permutation_in; [apply Permutation_sym; exact Hp|exact Ha].
+  Qed.
+
+  (* entry lists sorted by linear location with distinct locations are determined by their members *)
+  Lemma entries_sorted_unique sh (l1 l2 : list entry) :
+    Permutation l1 l2 -> StronglySorted Z.le (keys_of sh l1) -> StronglySorted Z.le (keys_of sh l2) ->
+    NoDup (keys_of sh l1) -> l1 = l2.
+  Proof.
+    intros Hp H1 H2 Hnd.
+    set (f := fun e : entry => (ravel sh (fst e), e)).
+    assert (Hk : forall l, map fst (map f l) = keys_of sh l) by (intros; rewrite map_map; reflexivity).
+    assert (E : map f l1 = map f l2).
+    { apply sorted_perm_unique.
+      - apply Permutation_map. exact Hp.
+      - apply SS_map_kle. rewrite Hk. exact H1.
+      - apply SS_map_kle. rewrite Hk. exact H2.
+      - rewrite Hk. exact Hnd. }
+    apply (f_equal (map snd)) in E. rewrite !map_map in E. simpl in E. rewrite !map_id in E. exact E.
+  Qed.
+
+  Lemma coo_eta (x : coo V) : mkCOO (c_shape x) (c_coords x) (c_data x) (c_fill x) = x.
+  Proof. destruct x; reflexivity. Qed.
+
+  Section TocooNd.
+    Variable c : coo V.
+    Variable ca : list Z.
+    Hypothesis Hc : canonical V c.
+    Hypothesis Hok : shape_ok (c_shape c).
+    Hypothesis Hca : caxes_okb (Z.of_nat (length (c_shape c))) ca = true.
+    Hypothesis Hnd : (2 <= length (c_shape c))%nat.
+
+    Let sh := c_shape c.
+    Let rs := row_size sh ca.
+    Let cs := col_size sh ca.
+    Let s := gsorted c ca.
+    Let ord := axis_order (Z.of_nat (length sh)) ca.
+    Let rsh := reordered_shape sh ca.
+
+    Let rc_facts p (Hp : In p s) := rowf_colf c ca Hc Hok Hca p Hp.
+
+    (* step 1: the 2-d COO built from (rows, indices) is already canonical *)
+    Let coords1 := map (fun p => [rowf c ca p; colf c ca p]) s.
+
+    Lemma c1_canonical : canonical V (mkCOO [rs; cs] coords1 (map snd s) (c_fill c)).
+    Proof.
+      unfold canonical. cbn [c_shape c_coords c_data]. repeat split.
+      - unfold coords1. rewrite Forall_map. apply Forall_forall. intros p Hp.
+        destruct (rc_facts p Hp) as [_ [_ [Hr [Hcol _]]]]. simpl. repeat split; try apply Hr; apply Hcol.
+      - unfold coords1. eapply SS_map_mono; [|apply (gs_pairs_lt c ca Hc Hca)].
+        intros a b Ha Hb Hab. simpl in Hab.
+        destruct (rc_facts a Ha) as [Hcs [_ [_ [Hca' Ea]]]]. destruct (rc_facts b Hb) as [_ [_ [_ [Hcb' Eb]]]].
+        simpl.
+        destruct (Z.lt_trichotomy (rowf c ca a) (rowf c ca b)) as [?|[E|?]]; [left; assumption| |nia].
+        right. split; [assumption|]. left. nia.
+      - unfold coords1. rewrite !map_length. reflexivity.
+    Qed.
+
+    (* step 2: after reshape, the coordinates are the unravelled keys *)
+    Let coords2 := map (fun p : Z * V => unravel rsh (fst p)) s.
+
+    Lemma rsh_facts : shape_ok rsh /\ size rsh = rs * cs.
+    Proof. split; [apply rsh_ok; exact Hok|apply size_rsh]. Qed.
+
+    Lemma reshape_step :
+      coo_reshape veqb add (mkCOO [rs; cs] coords1 (map snd s) (c_fill c)) rsh
+      = mkCOO rsh coords2 (map snd s) (c_fill c).
+    Proof.
+      destruct rsh_facts as [Hrok Hrsize].
+      unfold coo_reshape. cbn [c_shape c_coords c_data c_fill]. unfold zlist_eqb.
+      destruct (idx_eqb [rs; cs] rsh) eqn:E.
+      - apply idx_eqb_eq in E. rewrite <- E. f_equal. unfold coords1, coords2.
+        apply map_ext_in. intros p Hp. rewrite <- E.
+        rewrite <- unravel_strided_spec.
+        + rewrite unravel_strided_2. reflexivity.
+        + rewrite E. exact Hrok.
+        + rewrite E, Hrsize. apply (gs_bounds c ca Hc Hca). exact Hp.
+      - rewrite coo_make_plain by (unfold coords1; rewrite !map_length; reflexivity).
+        f_equal. unfold coords1, coords2. rewrite map_map. apply map_ext_in. intros p Hp.
+        rewrite ravel_2. destruct (rc_facts p Hp) as [_ [_ [_ [_ Hrc]]]]. fold sh cs in Hrc.
+        rewrite Hrc. apply unravel_strided_spec; [exact Hrok|].
+        rewrite Hrsize. apply (gs_bounds c ca Hc Hca). exact Hp.
+    Qed.
+
+    (* step 3: the transposed coordinates are the original index tuples, in key order *)
+    Let E3 : list entry := map (fun p : Z * V => (unkey sh ca (fst p), snd p)) s.
+
+    Lemma E3_perm : Permutation E3 (entries c).
+    Proof.
+      pose proof (from_coo_nd_entries_perm c ca Hc Hok Hca Hnd) as H.
+      unfold entries at 1, gcxs_as_coo in H. cbn [c_coords c_data] in H.
+      rewrite (from_coo_nd_coords c ca Hc Hok Hca Hnd) in H.
+      rewrite (from_coo_nf c ca Hok Hca Hnd) in H. cbn [g_data] in H. rewrite combine_map_map in H. exact H.
+    Qed.
+
+    Lemma ord_is_perm : perm_of (length sh) ord.
+    Proof. apply ord_perm. exact Hca. Qed.
+
+    Lemma unravel_len p : In p s -> length (unravel rsh (fst p)) = length sh.
+    Proof.
+      intros Hp. destruct rsh_facts as [Hrok Hrsize].
+      rewrite (in_range_length rsh).
+      - apply rsh_length. exact Hca.
+      - apply unravel_in_range; [exact Hrok|]. rewrite Hrsize. apply (gs_bounds c ca Hc Hca). exact Hp.
+    Qed.
+
+    Lemma transpose_coords :
+      map (fun ix => gather ix (inv_perm ord)) coords2 = map fst E3.
+    Proof.
+      unfold coords2, E3. rewrite !map_map. apply map_ext_in. intros p Hp. simpl.
+      unfold unkey. fold ord rsh. apply (gather_inv_unpermute (length sh)); [apply ord_is_perm|apply unravel_len; exact Hp].
+    Qed.
+
+    Lemma E3_data : map snd E3 = map snd s.
+    Proof. unfold E3. rewrite map_map. reflexivity. Qed.
+
+    Lemma sorted_E3 : sort_indices sh E3 = entries c.
+    Proof.
+      pose proof (canonical_keys_lt V c Hc) as Hk.
+      apply entries_sorted_unique with (sh := sh).
+      - eapply perm_trans; [apply Permutation_sym, (sort_indices_perm V)|apply E3_perm].
+      - apply (sort_indices_sorted V).
+      - apply SS_lt_le. exact Hk.
+      - eapply Permutation_NoDup.
+        + unfold keys_of. apply Permutation_map. eapply perm_trans; [apply Permutation_sym, E3_perm|apply sort_indices_perm].
+        + apply SS_lt_NoDup. exact Hk.
+    Qed.
+
+    Lemma coo_of_entries_c : coo_of_entries sh (entries c) (c_fill c) = c.
+    Proof.
+      pose proof Hc as [_ [_ Hl]]. unfold coo_of_entries, entries.
+      rewrite map_fst_combine, map_snd_combine by lia. apply coo_eta.
+    Qed.
+
+    Lemma tocoo_from_coo_nd : gcxs_tocoo veqb add (gcxs_from_coo c ca) = c.
+    Proof.
+      rewrite (from_coo_nf c ca Hok Hca Hnd). rewrite gcxs_tocoo_nd by exact Hnd.
+      rewrite (rows_roundtrip c ca Hc Hok Hca).
+      rewrite combine_map_map, map_map. cbn [fst snd].
+      fold sh. fold rs cs s ord rsh. fold coords1.
+      pose proof (coo_make_canonical_id V veqb add (mkCOO [rs; cs] coords1 (map snd s) (c_fill c)) false true c1_canonical) as H1.
+      cbn [c_shape c_coords c_data c_fill] in H1.
+      match goal with |- context [coo_make veqb add false true false ?a ?b ?d ?f] =>
+        replace (coo_make veqb add false true false a b d f)
+          with (mkCOO [rs; cs] coords1 (map snd s) (c_fill c)) by (symmetry; exact H1) end.
+      rewrite reshape_step.
+      assert (Hsh : gather rsh (inv_perm ord) = sh).
+      { unfold rsh. rewrite reordered_shape_gather. fold ord.
+        apply (gather_inv_perm (length sh)); [apply ord_is_perm|reflexivity]. }
+      assert (Hcomb : combine (map fst E3) (map snd s) = E3).
+      { rewrite <- E3_data. apply combine_fst_snd. }
+      unfold coo_transpose. cbn [c_shape c_coords c_data c_fill]. unfold zlist_eqb.
+      destruct (idx_eqb (inv_perm ord) (zrange (Z.of_nat (length rsh)))) eqn:E.
+      - (* the permutation is the identity: nothing is re-sorted, and nothing needs to be *)
+        apply idx_eqb_eq in E.
+        assert (Hlen : length rsh = length sh) by (apply rsh_length; exact Hca).
+        assert (Hrsh : rsh = sh).
+        { transitivity (gather rsh (inv_perm ord)); [rewrite E; symmetry; apply gather_zrange|exact Hsh]. }
+        assert (Hc2 : coords2 = map fst E3).
+        { rewrite <- transpose_coords. rewrite E. rewrite <- (map_id coords2) at 1.
+          apply map_ext_in. intros ix Hix. unfold coords2 in Hix. apply in_map_iff in Hix.
+          destruct Hix as [p [<- Hp]]. rewrite Hlen, <- (unravel_len p Hp). symmetry. apply gather_zrange. }
+        rewrite Hc2, Hrsh.
+        rewrite <- coo_of_entries_c. unfold coo_of_entries. rewrite <- sorted_E3.
+        rewrite (sort_indices_sorted_id V); [rewrite E3_data; reflexivity|].
+        (* keys of E3 w.r.t. sh are the sorted keys *)
+        replace (keys_of sh E3) with (map fst s); [apply SS_lt_le, (gs_keys_lt c ca Hc Hca)|].
+        unfold keys_of, E3. rewrite map_map. apply map_ext_in. intros p Hp. cbn [fst].
+        assert (Hu : unkey sh ca (fst p) = unravel sh (fst p)).
+        { pose proof transpose_coords as Ht. rewrite E in Ht. unfold coords2, E3 in Ht. rewrite !map_map in Ht.
+          cbn [fst] in Ht.
+          assert (Hpt := ext_in_map Ht p Hp). cbn beta in Hpt. rewrite <- Hpt.
+          rewrite Hlen, <- (unravel_len p Hp), gather_zrange. rewrite Hrsh. reflexivity. }
+        rewrite Hu. rewrite ravel_unravel; [reflexivity|exact Hok|].
+        destruct rsh_facts as [_ Hrsize]. rewrite Hrsh in Hrsize. rewrite Hrsize.
+        apply (gs_bounds c ca Hc Hca). exact Hp.
+      - rewrite Hsh, transpose_coords. unfold coo_make. cbv zeta. cbn [negb].
+        rewrite Hcomb. rewrite sorted_E3. apply coo_of_entries_c.
+    Qed.
+  End TocooNd.
+
+  (* ================================================================ change_compressed_axes *)
+  Section ChangeAxes.
+    Variable c : coo V.
+    Variable ca ca' : list Z.
+    Hypothesis Hc : canonical V c.
+    Hypothesis Hok : shape_ok (c_shape c).
+    Hypothesis Hca : caxes_okb (Z.of_nat (length (c_shape c))) ca = true.
+    Hypothesis Hca' : caxes_okb (Z.of_nat (length (c_shape c))) ca' = true.
+    Hypothesis Hnd : (2 <= length (c_shape c))%nat.
+
+    Let sh := c_shape c.
+    Let s := gsorted c ca.
+    Let s' := gsorted c ca'.
+    Let rs' := row_size sh ca'.
+    Let cs' := col_size sh ca'.
+
+    Lemma key_of_sorted p : In p s -> exists ix, In ix (c_coords c) /\ in_range sh ix /\ fst p = ckey sh ca ix.
+    Proof.
+      intros Hp. assert (Hin : In (fst p) (map fst s)) by (apply in_map; exact Hp).
+      apply (Permutation_in _ (Permutation_sym (gs_keys_perm c ca Hc))) in Hin.
+      apply in_map_iff in Hin. destruct Hin as [ix [E Hix]]. exists ix.
+      pose proof Hc as [Hr _]. rewrite Forall_forall in Hr. auto.
+    Qed.
+
+    (* one iteration of _convert_coords *)
+    Lemma convert_coord_spec ix :
+      in_range sh ix ->
+      convert_coord (ckey sh ca ix) sh (reordered_shape sh ca)
+                    (inv_perm (axis_order (Z.of_nat (length sh)) ca)) sh
+                    (axis_order (Z.of_nat (length sh)) ca') (reordered_shape sh ca') [rs'; cs']
+      = (ckey sh ca' ix, [(ckey sh ca' ix / cs') mod rs'; ckey sh ca' ix mod cs']).
+    Proof.
+      intros Hix. unfold convert_coord.
+      assert (Hlen : length ix = length sh) by (apply in_range_length; exact Hix).
+      assert (Hne : sh <> []) by (intros E; unfold sh in E; rewrite E in Hnd; simpl in Hnd; lia).
+      pose proof (ckey_bounds sh ca Hca ix Hix) as Hb.
+      pose proof (ckey_bounds sh ca' Hca' ix Hix) as Hb'.
+      assert (H1 : unravel_k (ckey sh ca ix) (reordered_shape sh ca) = gather ix (axis_order (Z.of_nat (length sh)) ca)).
+      { rewrite unravel_k_spec.
+        - unfold ckey. apply unravel_ravel. apply gather_ord_in_range; assumption.
+        - intros E. pose proof (rsh_length sh ca Hca) as HL. rewrite E in HL. simpl in HL. unfold sh in HL. lia.
+        - apply rsh_ok. exact Hok.
+        - rewrite size_rsh. exact Hb. }
+      assert (H2 : gather (gather ix (axis_order (Z.of_nat (length sh)) ca)) (inv_perm (axis_order (Z.of_nat (length sh)) ca)) = ix).
+      { apply (gather_inv_perm (length sh)); [apply ord_perm; exact Hca|exact Hlen]. }
+      assert (Hixne : ix <> []).
+      { intros E. rewrite E in Hlen. simpl in Hlen. unfold sh in Hlen. lia. }
+      assert (H3 : ravel_k ix sh = ravel sh ix) by (apply ravel_k_spec; assumption).
+      assert (H4 : unravel_k (ravel sh ix) sh = ix).
+      { rewrite unravel_k_spec; [apply unravel_ravel; exact Hix|exact Hne|exact Hok|apply ravel_bounds; exact Hix]. }
+      assert (H5 : ravel_k (gather ix (axis_order (Z.of_nat (length sh)) ca')) (reordered_shape sh ca') = ckey sh ca' ix).
+      { apply ravel_k_spec.
+        - intros E. pose proof (gather_length ix (axis_order (Z.of_nat (length sh)) ca')) as HL.
+          rewrite E, (perm_of_length _ _ (ord_perm sh ca' Hca')) in HL. simpl in HL. unfold sh in HL. lia.
+        - rewrite gather_length, (perm_of_length _ _ (ord_perm sh ca' Hca')). symmetry. apply rsh_length. exact Hca'. }
+      assert (Hok2 : shape_ok [rs'; cs']).
+      { constructor; [apply row_size_nonneg; exact Hok|constructor; [apply col_size_nonneg; exact Hok|constructor]]. }
+      assert (H6 : unravel_k (ckey sh ca' ix) [rs'; cs'] = [(ckey sh ca' ix / cs') mod rs'; ckey sh ca' ix mod cs']).
+      { rewrite unravel_k_spec; [|discriminate|exact Hok2|simpl; rewrite Z.mul_1_r; exact Hb'].
+        rewrite <- unravel_strided_spec; [apply unravel_strided_2|exact Hok2|simpl; rewrite Z.mul_1_r; exact Hb']. }
+      rewrite H1, H2, H3, H4, H5, H6. reflexivity.
+    Qed.
+
+    Definition U' (l : Z) : idx := [(l / cs') mod rs'; l mod cs'].
+    Definition k' (p : Z * V) : Z := ckey sh ca' (unkey sh ca (fst p)).
+
+    Lemma sorted_rekeyed : stable_sort (map (fun p => (k' p, snd p)) s) = s'.
+    Proof.
+      apply stable_sort_unique.
+      - (* both are arrangements of the entries of c under the new keys *)
+        eapply perm_trans; [|apply (gs_perm c ca')].
+        rewrite combine_map_l. fold (entries c).
+        pose proof (E3_perm c ca Hc Hok Hca Hnd) as HE.
+        apply (Permutation_map (fun e : entry => (ckey sh ca' (fst e), snd e))) in HE.
+        rewrite map_map in HE. exact HE.
+      - apply stable_sort_sorted.
+      - rewrite map_map. cbn [fst].
+        eapply Permutation_NoDup; [|apply (lin_NoDup c ca' Hc Hca')].
+        pose proof (E3_perm c ca Hc Hok Hca Hnd) as HE.
+        apply (Permutation_map (fun e : entry => ckey sh ca' (fst e))) in HE.
+        rewrite map_map in HE. cbn [fst] in HE. apply Permutation_sym.
+        destruct Hc as [_ [_ Hl]]. unfold entries in HE. 
+        replace (map (fun e : entry => ckey sh ca' (fst e)) (combine (c_coords c) (c_data c)))
+          with (map (ckey sh ca') (c_coords c)) in HE.
+        + exact HE.
+        + rewrite <- (map_fst_combine (c_coords c) (c_data c)) at 1 by lia. rewrite map_map. reflexivity.
+    Qed.
+
+    Lemma transpose_from_coo : gcxs_transpose_same (gcxs_from_coo c ca) ca' = gcxs_from_coo c ca'.
+    Proof.
+      rewrite (from_coo_nf c ca Hok Hca Hnd). rewrite (from_coo_nf c ca' Hok Hca' Hnd).
+      unfold gcxs_transpose_same. cbn [g_shape g_caxes g_data g_indices g_indptr g_fill].
+      rewrite (rows_roundtrip c ca Hc Hok Hca).
+      (* the linear locations are the sorted keys *)
+      assert (HLIN : map (fun rc : Z * Z => ravel [row_size (c_shape c) ca; col_size (c_shape c) ca] [fst rc; snd rc])
+                         (combine (map (rowf c ca) (gsorted c ca)) (map (colf c ca) (gsorted c ca)))
+                     = map fst (gsorted c ca)).
+      { rewrite combine_map_map, map_map. apply map_ext_in. intros p Hp. cbn [fst snd]. rewrite ravel_2.
+        destruct (rowf_colf c ca Hc Hok Hca p Hp) as [_ [_ [_ [_ Hrc]]]]. exact Hrc. }
+      rewrite HLIN. clear HLIN.
+      (* every iteration follows convert_coord_spec *)
+      assert (Hconv : map (fun n : Z =>
+                 convert_coord n (c_shape c) (reordered_shape (c_shape c) ca)
+                   (inv_perm (axis_order (Z.of_nat (length (c_shape c))) ca)) (c_shape c)
+                   (axis_order (Z.of_nat (length (c_shape c))) ca') (reordered_shape (c_shape c) ca')
+                   [row_size (c_shape c) ca'; col_size (c_shape c) ca']) (map fst (gsorted c ca))
+               = map (fun p => (k' p, U' (k' p))) s).
+      { rewrite map_map. apply map_ext_in. intros p Hp.
+        destruct (key_of_sorted p Hp) as [ix [_ [Hix E]]].
+        pose proof (convert_coord_spec ix Hix) as Hcc. unfold rs', cs', sh in Hcc.
+        unfold k', U', rs', cs', sh. unfold sh in E. rewrite E. rewrite Hcc.
+        rewrite (unkey_ckey (c_shape c) ca Hca ix Hix). reflexivity. }
+      rewrite Hconv. clear Hconv. rewrite !map_map. cbn [fst snd].
+      rewrite combine_map_map. rewrite combine_map_map.
+      (* sort: commute with the payload map, then use the uniqueness of the sorted arrangement *)
+      assert (Hs2 : stable_sort (map (fun p : Z * V => (k' p, (U' (k' p), snd p))) s)
+                    = map (fun q : Z * V => (fst q, (U' (fst q), snd q))) s').
+      { rewrite <- sorted_rekeyed.
+        rewrite <- (stable_sort_map (fun k v => (U' k, v))). rewrite map_map. reflexivity. }
+      fold s. rewrite Hs2. rewrite !map_map. cbn [fst snd]. unfold U'. reflexivity.
+    Qed.
+
+    Lemma change_axes_from_coo_nd : gcxs_change_axes (gcxs_from_coo c ca) ca' = gcxs_from_coo c ca'.
+    Proof.
+      unfold gcxs_change_axes.
+      assert (Hg : g_caxes (gcxs_from_coo c ca) = ca) by (rewrite (from_coo_nf c ca Hok Hca Hnd); reflexivity).
+      rewrite Hg. unfold zlist_eqb. destruct (idx_eqb ca' ca) eqn:E.
+      - apply idx_eqb_eq in E. rewrite E. reflexivity.
+      - apply transpose_from_coo.
+    Qed.
+  End ChangeAxes.
+
+  Theorem tocoo_from_coo_proof (c : coo V) ca :
+    canonical V c -> shape_ok (c_shape c) -> axes_ok (c_shape c) ca ->
+    gcxs_tocoo veqb add (gcxs_from_coo c ca) = c.
+  Proof.
+    intros Hc Hok Hax.
+    destruct (Nat.lt_ge_cases (length (c_shape c)) 2) as [Hlt|Hge].
+    - unfold gcxs_tocoo, gcxs_from_coo.
+      destruct (c_shape c) as [|d [|d2 t]] eqn:E; [| |simpl in Hlt; lia]; cbn [g_shape g_data g_indices g_fill].
+      + destruct (coords_0d c Hc E) as [H1 _]. rewrite <- H1, <- E. apply coo_make_canonical_id. exact Hc.
+      + destruct (coords_1d c d Hc E) as [H1 _]. rewrite H1, <- E. apply coo_make_canonical_id. exact Hc.
+    - destruct Hax as [Hax|Hax]; [lia|]. apply tocoo_from_coo_nd; assumption.
+  Qed.
+End GC.
